@@ -129,8 +129,10 @@ func vHarnessUpgradeHandlersRunMigrations() {
 		}
 		h := u.CreateUpgradeHandler(&module.Manager{}, nil, &ak)
 		before := vEventCount("RunMigrations")
-		_, err := h(ctx, upgradetypes.Plan{}, map[string]uint64{})
+		vm, err := h(ctx, upgradetypes.Plan{}, map[string]uint64{"aol": 1})
 		vCheck(err == nil, "C19: the upgrade handler returns without error when the migrations succeed")
+		_, recorded := vm["verif:migrated"]
+		vCheck(recorded, "C19: the upgrade handler returns the version map produced by the migrations (module versions are recorded)")
 		vCheck(vEventCount("RunMigrations") == before+1, "C19: each upgrade handler runs the module migrations exactly once")
 		n++
 	}
